@@ -5,7 +5,7 @@
 
 use crate::case::{self, Case};
 use crate::driver::{self, Spec, REL_TOL_F32};
-use crate::forms::{owned_forms, owned_only, view_forms, Forms, Out, Pred, ToOut};
+use crate::forms::{owned_forms, owned_only, owned_reuse, view_forms, Forms, Out, Pred, ToOut};
 use crate::util::{abs_dot, all_finite, dot, fit_or_skip, usable};
 use linfa::composing::platt_scaling::{platt_newton_method, Platt};
 use linfa::composing::{MultiClassModel, MultiTargetModel};
@@ -75,13 +75,17 @@ impl MultiTargetPred {
 }
 
 impl Pred for MultiTargetPred {
-    fn forms_owned(&self, x: &Array2<f64>) -> Forms {
+    fn forms_owned(&self, x: &Array2<f64>, junk: u8) -> Forms {
         let m = self.build::<OwnedRepr<f64>>();
-        owned_forms::<_, Array2<f64>>(&m, x)
+        owned_forms::<_, Array2<f64>>(&m, x, junk)
     }
-    fn forms_view(&self, x: ArrayView2<'_, f64>) -> Option<Forms> {
+    fn forms_view(&self, x: ArrayView2<'_, f64>, junk: u8) -> Option<Forms> {
         let m = self.build::<ViewRepr<&f64>>();
-        Some(view_forms::<_, Array2<f64>>(&m, x))
+        Some(view_forms::<_, Array2<f64>>(&m, x, junk))
+    }
+    fn reuse(&self, x1: &Array2<f64>, x2: &Array2<f64>) -> Out {
+        let m = self.build::<OwnedRepr<f64>>();
+        owned_reuse::<_, Array2<f64>>(&m, x1, x2)
     }
     fn one(&self, x: &Array2<f64>) -> Out {
         let m = self.build::<OwnedRepr<f64>>();
@@ -235,13 +239,17 @@ impl MultiClassPred {
 }
 
 impl Pred for MultiClassPred {
-    fn forms_owned(&self, x: &Array2<f64>) -> Forms {
+    fn forms_owned(&self, x: &Array2<f64>, junk: u8) -> Forms {
         let m = self.build_owned();
-        owned_forms::<_, Array1<usize>>(&m, x)
+        owned_forms::<_, Array1<usize>>(&m, x, junk)
     }
-    fn forms_view(&self, x: ArrayView2<'_, f64>) -> Option<Forms> {
+    fn forms_view(&self, x: ArrayView2<'_, f64>, junk: u8) -> Option<Forms> {
         let m = self.build_view()?;
-        Some(view_forms::<_, Array1<usize>>(&m, x))
+        Some(view_forms::<_, Array1<usize>>(&m, x, junk))
+    }
+    fn reuse(&self, x1: &Array2<f64>, x2: &Array2<f64>) -> Out {
+        let m = self.build_owned();
+        owned_reuse::<_, Array1<usize>>(&m, x1, x2)
     }
     fn one(&self, x: &Array2<f64>) -> Out {
         let m = self.build_owned();
@@ -357,8 +365,21 @@ fn platt_common<O>(c: &Case, obs: &mut Obs, inner: O, exact_inner_cross_layout: 
 where
     O: PredictInplace<Array2<f64>, Array1<f64>> + Clone,
 {
+    platt_with(c, obs, inner, exact_inner_cross_layout, case::bool_labels(c), None)
+}
+
+/// `rows`: given the fitted (A, B), the query batch to use instead of the case's own one
+fn platt_with<O>(
+    c: &Case,
+    obs: &mut Obs,
+    inner: O,
+    exact_inner_cross_layout: bool,
+    labels: Array1<bool>,
+    rows: Option<&dyn Fn(f64, f64) -> Option<case::Query>>,
+) where
+    O: PredictInplace<Array2<f64>, Array1<f64>> + Clone,
+{
     let x = case::train_x(c);
-    let labels = case::bool_labels(c);
     let ds = Dataset::new(x.clone(), labels.clone());
     // A and B: the same public Newton routine on the same inputs as `fit_with`
     let train_dec: Array1<f64> = match vengine::guard(|| inner.predict(&x)) {
@@ -381,7 +402,17 @@ where
     let mut spec = Spec::matvec(|_| 0.0).with_rel(REL_TOL_F32);
     spec.exact_cross_layout = exact_inner_cross_layout;
     let pred = owned_only::<_, Array1<Pr>>(&model);
-    if let Some(info) = driver::run(obs, c, &pred, &spec) {
+    let query = match rows {
+        None => case::query(c),
+        Some(f) => match f(a, b) {
+            Some(q) => q,
+            None => {
+                obs.skip("skipped_flat_calibration");
+                return;
+            }
+        },
+    };
+    if let Some(info) = driver::run_rows(obs, c, &pred, &spec, query) {
         let Some(dec) = obs.call("inner predict", || inner.predict(&info.q)) else { return };
         let dec: Vec<f64> = dec.to_vec();
         let pr: Vec<f64> = info.batch.rows.iter().map(|r| r[0]).collect();
@@ -392,6 +423,8 @@ where
             let z = a * dec[i] + b;
             let want = if z >= 0.0 { (-z).exp() / (1.0 + (-z).exp()) } else { 1.0 / (1.0 + z.exp()) };
             obs.class_if(pr[i] == 0.0 || pr[i] == 1.0, "platt_saturated_probability");
+            obs.class_if(z <= -88.8, "platt_argument_below_minus_88");
+            obs.class_if(z >= 88.8, "platt_argument_above_88");
             obs.ensure((0.0..=1.0).contains(&pr[i]), "platt:range", || format!("probability {} for decision value {}", pr[i], dec[i]));
             // f32 evaluation of the sigmoid: argument rounded to f32 (relative 6e-8), result to f32
             obs.ensure((pr[i] - want).abs() <= 3e-6, "platt:sigmoid", || {
@@ -450,4 +483,113 @@ pub fn check_platt(c: &Case, obs: &mut Obs) {
             platt_common(c, obs, inner, true);
         }
     }
+}
+
+// ------------------------------------------------------------------------------------------------
+// Platt with extreme decision values
+
+/// targets for A*f + B (both signs are used)
+const Z_GRID: [f64; 11] = [0.0, 1e-3, 1.0, 10.0, 50.0, 88.0, 89.0, 100.0, 700.0, 1e4, 1e30];
+
+fn stable_sigmoid_of_minus(z: f64) -> f64 {
+    // 1 / (1 + exp(z)) without overflow
+    if z >= 0.0 {
+        (-z).exp() / (1.0 + (-z).exp())
+    } else {
+        1.0 / (1.0 + z.exp())
+    }
+}
+
+/// (1) `platt_predict` called directly with generated (A, B) of both signs and decision values that put
+/// A*f+B on the grid; (2) a fitted `Platt` around a mock inner model whose decision value is feature 0
+/// (orientation generated, so A takes both signs), queried with rows constructed so that A*f+B hits the
+/// same grid, through the whole generic oracle (batch, layouts, calling forms, buffers).
+pub fn check_platt_extreme(c: &Case, obs: &mut Obs) {
+    if !usable(c, obs) {
+        return;
+    }
+    // ---- (1) the sigmoid itself
+    let a_mag = [0.01, 1.0, 37.5, 1e-6, 1e4][c.opt(1, 5) as usize] * (1.0 + c.w[1][0].abs());
+    let a = if c.opt(2, 2) == 0 { -a_mag } else { a_mag };
+    let b = 3.0 * c.w[2][0];
+    obs.class(if a < 0.0 { "direct_negative_a" } else { "direct_positive_a" });
+    let mut pts: Vec<(f64, f64)> = vec![]; // (f, probability)
+    for (gi, g) in Z_GRID.iter().enumerate() {
+        for sign in [-1.0, 1.0] {
+            for jitter in [0.0, c.noise[gi % c.n()] * 1e-3] {
+                let z = sign * g * (1.0 + jitter);
+                let f = (z - b) / a;
+                if !f.is_finite() {
+                    continue;
+                }
+                let Some(p) = obs.call("platt_predict", || linfa::composing::platt_scaling::platt_predict(f, a, b)) else { continue };
+                let p = *p as f64;
+                let zz = a * f + b;
+                obs.class_if(zz <= -88.8, "platt_argument_below_minus_88");
+                obs.class_if(zz >= 88.8, "platt_argument_above_88");
+                obs.ensure(p.is_finite() && (0.0..=1.0).contains(&p), "platt:range", || {
+                    format!("platt_predict({f:e}, {a:e}, {b:e}) = {p}")
+                });
+                let want = stable_sigmoid_of_minus(zz);
+                obs.ensure((p - want).abs() <= 3e-6, "platt:sigmoid", || {
+                    format!("platt_predict({f:e}, {a:e}, {b:e}) = {p}, 1/(1+exp(A f + B)) = {want}")
+                });
+                pts.push((f, p));
+            }
+        }
+    }
+    let slack = 4.0 * f32::EPSILON as f64;
+    for i in 0..pts.len() {
+        for j in 0..pts.len() {
+            if pts[i].0 < pts[j].0 {
+                let ok = if a < 0.0 { pts[i].1 <= pts[j].1 + slack } else { pts[i].1 >= pts[j].1 - slack };
+                obs.ensure(ok, "platt:monotone", || {
+                    format!("platt_predict with A = {a:e}, B = {b:e}: f {:e} < {:e} but probabilities {} and {}", pts[i].0, pts[j].0, pts[i].1, pts[j].1)
+                });
+            }
+        }
+    }
+
+    // ---- (2) a fitted Platt model queried at extreme decision values
+    let orient = if c.opt(0, 2) == 0 { 1.0 } else { -1.0 };
+    let p = c.p();
+    let mut w = vec![0.0; p];
+    w[0] = orient;
+    let inner = MockDecision { w, b: 0.0 };
+    // labels follow feature 0 (plus noise): the calibration slope is clearly non-zero, its sign follows `orient`
+    let n = c.n();
+    let mut order: Vec<usize> = (0..n).collect();
+    let key: Vec<f64> = (0..n).map(|i| c.train[i][0] + 0.5 * c.noise[i]).collect();
+    order.sort_by(|&i, &j| key[i].partial_cmp(&key[j]).unwrap_or(std::cmp::Ordering::Equal).then(i.cmp(&j)));
+    let mut lab = vec![false; n];
+    for (rank, &i) in order.iter().enumerate() {
+        lab[i] = rank * 2 >= n;
+    }
+    let rows = |a: f64, b: f64| -> Option<case::Query> {
+        if a == 0.0 || !a.is_finite() || !b.is_finite() {
+            return None;
+        }
+        let mut rows: Vec<Vec<f64>> = vec![];
+        let mut origin = vec![];
+        for &(kind, i) in &c.picks {
+            if kind % 3 == 2 && !rows.is_empty() {
+                let r = rows[vengine::gen::idx(i, rows.len())].clone();
+                rows.push(r);
+                origin.push(case::Origin::Dup);
+                continue;
+            }
+            let g = Z_GRID[vengine::gen::idx(i, Z_GRID.len())];
+            let z = if kind % 2 == 0 { g } else { -g };
+            let f = (z - b) / a;
+            if !f.is_finite() {
+                continue;
+            }
+            let mut r = c.fresh[vengine::gen::idx(i, c.fresh.len())].clone();
+            r[0] = f * orient; // inner decision value = orient * x0 = f
+            rows.push(r);
+            origin.push(case::Origin::Fresh);
+        }
+        Some(case::Query { rows, origin })
+    };
+    platt_with(c, obs, inner, true, Array1::from(lab), Some(&rows));
 }
